@@ -419,3 +419,16 @@ def contracts():
     for c in extra:
         c.prop = PROP
     return _c07_base3() + extra
+
+
+# a dynamic watcher runs because the setter's dispatch loop calls EVERY watcher of its snapshot
+# (sorted by precedence), also those re-created by an earlier callback of the same loop (verified for C03)
+_c07_base4 = contracts
+
+
+def contracts():
+    from contracts import c02 as _c02
+    extra = _c02.all_set_contracts(["C03/"])
+    for c in extra:
+        c.prop = PROP
+    return _c07_base4() + extra
